@@ -95,10 +95,14 @@ def pmap_unordered(fn, items, jobs=None):
         for x in items:
             yield fn(x)
         return
-    with ProcessPoolExecutor(max_workers=jobs) as ex:
+    ex = ProcessPoolExecutor(max_workers=jobs)
+    try:
         futs = [ex.submit(fn, x) for x in items]
         for f in as_completed(futs):
             yield f.result()
+    finally:
+        # a consumer that stops early (deadline) must not wait for the queued work
+        ex.shutdown(wait=False, cancel_futures=True)
 
 
 class Deadline:
